@@ -26,3 +26,69 @@ def converse_statement : Prop :=
     (r.kind = .repeated → shows z r.pre (secNum cs) ∧ shows z r.post (secNum cs))
 
 end Cctz.C03
+
+namespace Cctz.C03
+open Cctz Cctz.Tz Cctz.Spec Cctz.Tc
+
+theorem converse : converse_statement := by
+  intro z h cs wf cols sep vcs ns
+  have ho := makeTime_outcome z h cs wf cols sep vcs ns
+  intro r
+  cases ho with
+  | unique k hk h1 h2 hr =>
+    have hr' : r = mkUnique (uval z k (secNum cs)) := hr
+    rw [hr']
+    refine ⟨fun _ hlo hhi => ?_, fun hk => Kind.noConfusion hk⟩
+    have hlo : i64min < uval z k (secNum cs) := hlo
+    have hhi : uval z k (secNum cs) < i64max := hhi
+    have : uval z k (secNum cs) = secNum cs - offBefore z k := by
+      rcases uval_cases z k (secNum cs) with h | ⟨_, h⟩ | ⟨_, h⟩
+      · exact h
+      · omega
+      · omega
+    show shows z (uval z k (secNum cs)) (secNum cs)
+    rw [this]
+    exact (unique_shows wf sep hk h1 h2 _).2 rfl
+  | skipped k hk h1 h2 hr =>
+    have hr' : r = ⟨.skipped, secNum cs - offBefore z k, timeOf z k, secNum cs - offOf z k⟩ := hr
+    rw [hr']
+    exact ⟨fun hk => Kind.noConfusion hk, fun hk => Kind.noConfusion hk⟩
+  | repeated i hi h1 h2 hr =>
+    have hr' : r = ⟨.repeated, secNum cs - offBefore z i, timeOf z i, secNum cs - offOf z i⟩ := hr
+    rw [hr']
+    refine ⟨fun hk => Kind.noConfusion hk, fun _ => ⟨?_, ?_⟩⟩
+    · exact (repeated_shows wf sep hi h1 h2 _).2 (Or.inl rfl)
+    · exact (repeated_shows wf sep hi h1 h2 _).2 (Or.inr rfl)
+
+end Cctz.C03
+
+namespace Cctz.C03
+open Cctz Cctz.Tz Cctz.Spec Cctz.Tc
+
+theorem roundtrip : roundtrip_statement := by
+  intro z h h' t wf cols sep ht hc cs ns
+  obtain ⟨vcs, hsh⟩ := breakTime_shows z h t wf cols hc
+  have ho := makeTime_outcome z h' cs wf cols sep vcs ns
+  intro r
+  cases ho with
+  | unique k hk h1 h2 hr =>
+    have hr' : r = mkUnique (uval z k (secNum cs)) := hr
+    rw [hr']
+    left
+    refine ⟨rfl, ?_⟩
+    have ht' := (unique_shows wf sep hk h1 h2 t).1 hsh
+    show uval z k (secNum cs) = t
+    unfold inI64 at ht
+    rcases uval_cases z k (secNum cs) with e | ⟨_, e⟩ | ⟨_, e⟩ <;> omega
+  | skipped k hk h1 h2 hr =>
+    exact absurd hsh (skipped_shows wf sep hk h1 h2 t)
+  | repeated i hi h1 h2 hr =>
+    have hr' : r = ⟨.repeated, secNum cs - offBefore z i, timeOf z i, secNum cs - offOf z i⟩ := hr
+    rw [hr']
+    right
+    refine ⟨rfl, ?_⟩
+    rcases (repeated_shows wf sep hi h1 h2 t).1 hsh with e | e
+    · left; exact e.symm
+    · right; exact e.symm
+
+end Cctz.C03
